@@ -148,9 +148,13 @@ CHECKS["C09"] = dict(
     technique="Coq proof over R + vm_compute correspondence + falsifier on degenerate streams", design="5/C09")
 CHECKS["C10"] = dict(
     text="Theorems over the reals, exact because rounding is monotone and fixes the grid: RSI in [0,100], TR >= rounded high-low >= 0, "
-         "ATR >= 0, EMA inside the range of its inputs, stored readings are fixed points of rounding. " + ENGINE_TIE +
+         "ATR >= 0, EMA inside the range of its inputs, stored readings are fixed points of rounding; and about the engine's own "
+         "_calculate_reading models, any store and index: Aroon up/down in [0,100] with oscillator = up - down, Donchian middle = mean "
+         "of its bounds and between them, Keltner and Bollinger band order, MACD histogram = MACD - signal, Supertrend direction/long/"
+         "short/trend. " + ENGINE_TIE +
          "Falsifier: every relation of the property text on the implementation's output.",
-    note="STOCH/AROON/ADX/TSI ranges, band orderings, identities, Supertrend/Counter/OBV relations: correspondence + falsifier. Real-number axioms as for C04.",
+    note="STOCH/ADX/TSI ranges, Donchian enclosure, the accumulation of rounding in the identities after the final rounding: "
+         "correspondence + falsifier. Real-number axioms as for C04.",
     technique="Coq proof over R + vm_compute correspondence + relation falsifier", design="5/C10")
 CHECKS["C13"] = dict(
     text="Theorem (frame property, by induction over the engine interpreter and case analysis of all 27 _calculate_reading models): "
